@@ -83,6 +83,8 @@ def scenario(ctx):
             m = t.irange(1, min(4, P.n))
             init = t.perm(P.n)[:m]          # distinct frames in any order (e.g. the discovery order of an earlier run)
         spec = dict(algo='kcenters', form=form, k=k, cutoff=cutoff, tri=t.flag() and form == 'function')
+        if form == 'estimator' and t.flag(1, 3):
+            spec['late_params'] = 1 + t.draw(2)
         if init is not None:
             spec['init_centers'] = P.wrap(P.X[init].copy())
         g = run(spec)
@@ -97,8 +99,10 @@ def scenario(ctx):
 
     if case == 'hybrid':
         n_iters = t.irange(0, 4)
-        rseed = t.draw(1000)
+        rseed = 0 if t.flag(1, 8) else t.draw(1000)        # zero is a seed like any other
         spec = dict(algo='hybrid', form=form, k=k, cutoff=cutoff, n_iters=n_iters, random_state=rseed)
+        if form == 'estimator' and t.flag(1, 3):
+            spec['late_params'] = 1 + t.draw(2)
         ctx.scenario.update(n_iters=n_iters, random_state=rseed)
         g = run(spec)
         check(ctx, P, g, 'k-hybrid n_iters=%d (%s):' % (n_iters, form))
@@ -115,7 +119,7 @@ def scenario(ctx):
     if case == 'kmedoids_cold':
         kk = t.irange(1, min(6, P.n))
         n_iters = t.irange(1, 4)
-        rseed = t.draw(1000)
+        rseed = 0 if t.flag(1, 8) else t.draw(1000)        # zero is a seed like any other
         spec = dict(algo='kmedoids', form='function', k=kk, n_iters=n_iters, random_state=rseed)
         ctx.scenario.update(n_iters=n_iters, random_state=rseed, n_clusters=kk)
         g = run(spec)
